@@ -294,7 +294,8 @@ def callsLocked : Nat → Method → Bool
 /-- **lock discipline**: every method that reaches mutable state runs under the lock (taken first, released by
     defer, nothing mutable touched before); writers hold the write lock; no locked method re-enters the lock -/
 theorem discipline : methods.all (fun m =>
-    (m.lock == "none" || (m.deferredUnlock && !m.touchesBeforeLock)) &&
+    (m.lock == "none" || (m.deferredUnlock && !m.touchesBeforeLock &&
+        m.calleesBeforeLock.all fun c => match find? c with | some m' => !(touchesT 4 m') | none => false)) &&
     (!(touchesT 4 m) || underLock 4 m) &&
     (!(exported m && writesT 4 m) || m.lock == "Lock") &&
     (m.lock == "none" || !(callsLocked 4 m))) = true := by decide
